@@ -18,13 +18,15 @@ def main():
         idx = idx[n // 2:] + idx[:n // 2]
     elif order == "evens-first":
         idx = idx[0::2] + idx[1::2]
+    reps = int(sys.argv[3]) if len(sys.argv) > 3 else 1
     out = [None] * n
     for k in idx:
         c = cases[k]
-        try:
-            out[k] = run_job(mk_model(c["cfg"]), c["job"])
-        except Exception as e:  # noqa: BLE001
-            out[k] = {"raised": type(e).__name__}
+        for _ in range(reps):
+            try:
+                out[k] = run_job(mk_model(c["cfg"]), c["job"])
+            except Exception as e:  # noqa: BLE001
+                out[k] = {"raised": type(e).__name__}
     json.dump(out, sys.stdout)
 
 
